@@ -11,6 +11,7 @@ import (
 
 	"pgregory.net/rapid"
 
+	"github.com/cybergarage/go-redis/redis/auth"
 	"github.com/cybergarage/go-tracing/tracer"
 
 	"verif/internal/connsim"
@@ -28,6 +29,9 @@ func evalC20(c pipeCase) *Failure {
 	rec.ResultFn = c.resultFn()
 	tr := doubles.NewTracer(log)
 	srv.SetTracer(tr)
+	if c.Password != "" && c.CertRule {
+		srv.AddAuthenticator(auth.NewCertificateAuthenticatorWith(auth.WithCommonName("verif-client")))
+	}
 	if c.Password != "" {
 		srv.SetPort(0)
 		srv.SetRequirePass(c.Password)
@@ -475,6 +479,7 @@ func TestC20(t *testing.T) {
 		data, ends := resp.EncodeAll(c.values())
 		if rapid.IntRange(0, 2).Draw(rt, "pw") == 0 {
 			c.Password = "sesame"
+			c.CertRule = rapid.IntRange(0, 2).Draw(rt, "certrule") == 0
 			labels["password-required"] = true
 			// sprinkle AUTH requests
 			k := rapid.IntRange(0, 2).Draw(rt, "nauth")
@@ -520,7 +525,7 @@ func TestC20(t *testing.T) {
 		if c.WriteFailAfter != nil {
 			wf = *c.WriteFailAfter
 		}
-		canon := append(append([]byte{}, data...), []byte(fmt.Sprint(c.OddPos, c.Sizes, c.ErrCalls, c.NilCalls, c.GetMode, c.Cut, c.Password, wf))...)
+		canon := append(append([]byte{}, data...), []byte(fmt.Sprint(c.CertRule, c.OddPos, c.Sizes, c.ErrCalls, c.NilCalls, c.GetMode, c.Cut, c.Password, wf))...)
 		h.Col.Case(nt, canon, cl...)
 		if h.Col.WantSample() {
 			h.Col.Sample(map[string]any{"requests": c.strings(), "cut": c.Cut, "password": c.Password})
